@@ -268,26 +268,34 @@ func runC01(c *kit.Ctx) {
 			call, ok := kit.Strip(x).(*ssa.Call)
 			return ok && kit.CalleeName(call) == kit.M("", "", "fullyQualifiedTable") && kit.Same(call.Call.Args[0], R)
 		}
-		// the guard chain
+		// the guard chain: a1 = "stop key is not empty", a2 = "key >= stop"; for each the
+		// successor on which the atom holds (whatever polarity the condition is written in)
 		var a1, a2 *ssa.If
+		var a1Yes, a2Yes *ssa.BasicBlock
 		kit.Instrs(v.fn, func(in ssa.Instruction) {
 			iff, ok := in.(*ssa.If)
 			if !ok {
 				return
 			}
-			cmp, ok := kit.CanonCmp(iff.Cond, true)
-			if !ok {
-				return
-			}
-			if !cmp.Bytes && (cmp.Op == token.NEQ || cmp.Op == token.GTR) {
-				if l := kit.LenOf(cmp.X); l != nil && isStopOfR(l) {
-					if k, ok := kit.ConstInt(cmp.Y); ok && k == 0 {
-						a1 = iff
+			for _, pol := range []bool{true, false} {
+				cmp, ok := kit.CanonCmp(iff.Cond, pol)
+				if !ok {
+					continue
+				}
+				yes := kit.SuccOnTrue(iff)
+				if !pol {
+					yes = kit.SuccOnFalse(iff)
+				}
+				if !cmp.Bytes && (cmp.Op == token.NEQ || cmp.Op == token.GTR) {
+					if l := kit.LenOf(cmp.X); l != nil && isStopOfR(l) {
+						if k, ok := kit.ConstInt(cmp.Y); ok && k == 0 {
+							a1, a1Yes = iff, yes
+						}
 					}
 				}
-			}
-			if cmp.Bytes && ((cmp.Op == token.GEQ && cmp.X == ssa.Value(keyP) && isStopOfR(cmp.Y)) || (cmp.Op == token.LEQ && isStopOfR(cmp.X) && cmp.Y == ssa.Value(keyP))) {
-				a2 = iff
+				if cmp.Bytes && ((cmp.Op == token.GEQ && cmp.X == ssa.Value(keyP) && isStopOfR(cmp.Y)) || (cmp.Op == token.LEQ && isStopOfR(cmp.X) && cmp.Y == ssa.Value(keyP))) {
+					a2, a2Yes = iff, yes
+				}
 			}
 		})
 		nRet := 0
@@ -306,10 +314,10 @@ func runC01(c *kit.Ctx) {
 				}
 			}
 			c.Check(tableOK, v.fn, "table-check", r.Pos(), "the region is returned only if fullyQualifiedTable(region) equals the requested table", "a region of another table (the last region of a same-prefixed table) can be returned for this key")
-			stopOK := a1 != nil && a2 != nil && a1.Block().Dominates(r.Block()) && kit.EdgeDominates(a1.Block(), kit.SuccOnTrue(a1), a2.Block())
+			stopOK := a1 != nil && a2 != nil && a1.Block().Dominates(r.Block()) && kit.EdgeDominates(a1.Block(), a1Yes, a2.Block())
 			why := "no guard of the canonical form len(region.StopKey()) != 0 && key >= region.StopKey() found"
 			if stopOK {
-				e := kit.PathFromBlock(kit.SuccOnTrue(a2), kit.PathQuery{Target: func(x ssa.Instruction) bool { return x == ssa.Instruction(r) }})
+				e := kit.PathFromBlock(a2Yes, kit.PathQuery{Target: func(x ssa.Instruction) bool { return x == ssa.Instruction(r) }})
 				if e != nil {
 					stopOK = false
 					why = "the region is still returned on the edge key >= stop"
